@@ -10,7 +10,7 @@
    the solvers' backward error and float rounding of the assembly are outside the proof. *)
 From Coq Require Import ZArith List Bool Lia.
 From PB Require Import lib.SumZ lib.PySlice lib.Arr lib.Loop lib.LoopProofs C11.DtD C11.Table gen.GenBands
-                       C11.Banded C11.History C06.Model C06.Proofs.
+                       C11.Banded C11.History C06.Model C06.Proofs C06.Model2D C06.Proofs2D.
 Import ListNotations.
 Open Scope Z_scope.
 
@@ -135,6 +135,63 @@ Proof.
 Qed.
 Print Assumptions C06_returned_pair_methods.
 
+(* ---------------- 2-D (num_eigens=None): what reaches spsolve, on row-major raveled indices p = i*N + j.
+   [sys2_ok M N A b k]: the matrix handed to spsolve equals A on 0..MN-1 x 0..MN-1 and the rhs equals b.
+   P2r is lam_r kron(D_r'D_r, I_N) + lam_c kron(I_M, D_c'D_c) read through (p / N, p mod N); C06_kron_penalty
+   states it in pair coordinates.  diff_penalty_matrix is modelled from the C11 band tables. *)
+Theorem C06_kron_penalty : forall (M N : nat) (lr lc : Z) (dr dc : nat) (i j i' j' : Z),
+  0 <= j < Z.of_nat N -> 0 <= j' < Z.of_nat N ->
+  P2r M N lr lc dr dc (i * Z.of_nat N + j) (i' * Z.of_nat N + j')
+  = lr * DtD dr M i i' * eye j j' + lc * eye i i' * DtD dc N j j'.
+Proof. exact P2r_pairs. Qed.
+Print Assumptions C06_kron_penalty.
+
+Theorem C06_diff_penalty_matrix : forall (n d : nat), (d < n)%nat ->
+  exists A, dpm n d = Some A /\
+    forall i j, 0 <= i < Z.of_nat n -> 0 <= j < Z.of_nat n -> A i j = DtD d n i j.
+Proof. exact dpm_spec. Qed.
+Print Assumptions C06_diff_penalty_matrix.
+
+(* asls, airpls, arpls, iarpls, psalsa, brpls, lsrpls (2-D): (W + P) v = W y at every pass *)
+Theorem C06_2d_asls_system : forall (M N : nat) (lr lc : Z) (dr dc : nat) (wl : list (Z -> Z)) (y : Z -> Z),
+  (1 <= dr < M)%nat -> (1 <= dc < N)%nat -> 0 < lr -> 0 < lc ->
+  exists cs, asls2 M N lr lc dr dc wl y = Some cs /\
+    Forall2 (fun w k => sys2_ok M N (doc2_asls M N lr lc dr dc w) (mulv w y) k) wl cs.
+Proof. exact asls2_system. Qed.
+Print Assumptions C06_2d_asls_system.
+
+(* iasls (2-D): (W^2 + P_1 + P) v = (W^2 + P_1) y, P_1 the first-difference Kronecker penalty with lam_1 *)
+Theorem C06_2d_iasls_system : forall (M N : nat) (lr lc l1r l1c : Z) (dr dc : nat) (wl : list (Z -> Z)) (y : Z -> Z),
+  (2 <= dr < M)%nat -> (2 <= dc < N)%nat -> 0 < lr -> 0 < lc -> 0 < l1r -> 0 < l1c ->
+  exists cs, iasls2 M N lr lc l1r l1c dr dc wl y = Some cs /\
+    Forall2 (fun w k => sys2_ok M N (doc2_iasls M N lr lc l1r l1c dr dc w)
+                                 (doc2_iasls_rhs M N l1r l1c w y) k) wl cs.
+Proof. exact iasls2_system. Qed.
+Print Assumptions C06_2d_iasls_system.
+
+(* drpls (2-D): (W + P_1 + (I - eta W) P) v = W y *)
+Theorem C06_2d_drpls_system : forall (M N : nat) (lr lc eta : Z) (dr dc : nat) (wl : list (Z -> Z)) (y : Z -> Z),
+  (2 <= dr < M)%nat -> (2 <= dc < N)%nat -> 0 < lr -> 0 < lc ->
+  exists cs, drpls2 M N lr lc eta dr dc wl y = Some cs /\
+    Forall2 (fun w k => sys2_ok M N (doc2_drpls M N lr lc eta dr dc w) (mulv w y) k) wl cs.
+Proof. exact drpls2_system. Qed.
+Print Assumptions C06_2d_drpls_system.
+
+(* aspls (2-D): (W + diag(alpha) P) v = W y *)
+Theorem C06_2d_aspls_system : forall (M N : nat) (lr lc : Z) (dr dc : nat)
+    (wal : list ((Z -> Z) * (Z -> Z))) (y : Z -> Z),
+  (1 <= dr < M)%nat -> (1 <= dc < N)%nat -> 0 < lr -> 0 < lc ->
+  exists cs, aspls2 M N lr lc dr dc wal y = Some cs /\
+    Forall2 (fun (wa : (Z -> Z) * (Z -> Z)) k =>
+               sys2_ok M N (doc2_aspls M N lr lc dr dc (fst wa) (snd wa)) (mulv (fst wa) y) k) wal cs.
+Proof. exact aspls2_system. Qed.
+Print Assumptions C06_2d_aspls_system.
+
+Theorem C06_2d_solves_documented : forall (M N : nat) (A : mat) (b : Z -> Z) (k : call2) (v : Z -> Z),
+  sys2_ok M N A b k -> solves2 M N (c2_lhs k) (c2_rhs k) v -> solves2 M N A b v.
+Proof. exact sys2_ok_solves. Qed.
+Print Assumptions C06_2d_solves_documented.
+
 (* non-vacuity: concrete instances (pentapy and LAPACK layouts) evaluate to calls that denote the
    documented matrices; the hypotheses of C06_returned_pair are satisfiable and a run converges *)
 Example C06_systems_nonvacuous :
@@ -159,3 +216,14 @@ Example C06_returned_pair_nonvacuous :
   exists r, loop (Z -> Z) (Z -> Z) unit (fun k w => solver (asm k w)) (fun _ _ w => (w, false))
                  (fun _ _ _ _ => tt) (fun _ => true) 1 (fun _ => 1) = Some r /\ r_reason r = Converged.
 Proof. exact returned_pair_nonvacuous. Qed.
+
+Example C06_2d_systems_nonvacuous :
+  match asls2 4 3 2 8 2 1 [fun p => p mod 3; fun _ => 1] (fun p => p * p - 7),
+        drpls2 4 5 4 2 1 2 3 [fun p => p mod 2] (fun p => 9 - p) with
+  | Some [k1; k2], Some [k3] =>
+      dense 12 (c2_lhs k2) = dense 12 (doc2_asls 4 3 2 8 2 1 (fun _ => 1)) /\
+      dense 20 (c2_lhs k3) = dense 20 (doc2_drpls 4 5 4 2 1 2 3 (fun p => p mod 2)) /\
+      P2r 4 3 2 8 2 1 (1 * 3 + 2) (2 * 3 + 2) = 2 * DtD 2 4 1 2
+  | _, _ => False
+  end.
+Proof. exact systems2_nonvacuous. Qed.
